@@ -69,7 +69,7 @@ def run_one(engine, seed, acc, tier):
         from . import shipped_props
         return shipped_props.run_one(ID, seed, acc, tier, level='cli' if engine == 'shipped_cli' else None)
     rng = core.Rng(core.h64('c04', seed))
-    case = gen.gen_case(seed, clean=rng.chance(0.8))
+    case = gen.gen_case(seed, clean=rng.chance(0.8), percent=(engine == 'synth' and rng.chance(0.1)))
     if rng.chance(0.8 if engine != 'synth_cli' else 0.5):
         # success needs every input: supply or prompt for all of them
         case['prompt'] = True
